@@ -213,6 +213,9 @@ func init() {
 				// the fid is cloned (found by a thorough run of this check)
 				runCreateRace(rcx, k)
 				return
+			} else if k -= createRaceCount(); k < replaceRaceCount() {
+				runReplaceRace(rcx, k)
+				return
 			}
 			if rcx.Plan.Choose(4) == 0 {
 				// a pair of the directed catalogue (A parked in the backend, B
@@ -223,9 +226,9 @@ func init() {
 			}
 			runRandomWorkload(rcx, workloadOpts{Cut: true, Faults: rcx.Plan.Choose(2) == 1, ErrOnly: true, Xattr: true})
 		},
-		Directed: func(string) int { return len(cutCatalogue) + createRaceCount() },
+		Directed: func(string) int { return len(cutCatalogue) + createRaceCount() + replaceRaceCount() },
 		Quick:    32000, Thorough: 1800000, QuickSecs: 60, ThorSecs: 1500,
-		Rule: "directed: (a) 7 short sessions covering every way a File is obtained or dropped (multi-step and failed walks, fid replacement, create rebinding, xattr fids, rename/unlink/remove of referenced entries, clones) x request stream cut after EVERY byte offset x {0,1,2} backend calls parked across the cut x reply direction alive/dead x lock-step or pipelined delivery x optional backend error at a call index; (b) create-race: a Tlcreate parked in the backend while a rename / replace / unlink of the name it creates queues behind it, 6 kinds x same/other connection x 48 schedules, the created fid then probed, cloned and moved; random: 3/4 concurrent workloads with a tape-chosen cut and faults, 1/4 a pair of the C06/C07 catalogue (A parked in its backend call, B issued, A released) under a tape-chosen schedule with clone/getattr probes of every fid afterwards. Oracle: per-handle lifecycle counters in the backend (Close count = 1 at the end, no call after Close, no Close while a call on the handle runs), Server.Handle returned, scheduler task table has no server task left. Distinct = (scenario label, schedule fingerprint).",
+		Rule: "directed: (a) 7 short sessions covering every way a File is obtained or dropped (multi-step and failed walks, fid replacement, create rebinding, xattr fids, rename/unlink/remove of referenced entries, clones) x request stream cut after EVERY byte offset x {0,1,2} backend calls parked across the cut x reply direction alive/dead x lock-step or pipelined delivery x optional backend error at a call index; (b) create-race: a Tlcreate parked in the backend while a rename / replace / unlink of the name it creates queues behind it, 6 kinds x same/other connection x 48 schedules, the created fid then probed, cloned and moved; (c) replace-race: a Twalk onto a bound fid number parked in the displaced File's Close while a clunk / getattr / clone / remove / second walk on that fid number is issued, 24 schedules each; random: 3/4 concurrent workloads with a tape-chosen cut and faults, 1/4 a pair of the C06/C07 catalogue (A parked in its backend call, B issued, A released) under a tape-chosen schedule with clone/getattr probes of every fid afterwards. Oracle: per-handle lifecycle counters in the backend (Close count = 1 at the end, no call after Close, no Close while a call on the handle runs), Server.Handle returned, scheduler task table has no server task left. Distinct = (scenario label, schedule fingerprint).",
 		Assume: []string{"a File's Close counts even when it returns an injected error", "panics in Close during teardown are outside the statement and not injected"},
 		Real:   []string{"p9.Server", "p9 path tree / fid table / handlers", "p9 wire codec"},
 		Stub:   []string{"transport (simnet pipes)", "backend tree (simfs)", "raw 9P peer (refcodec)"},
